@@ -9,27 +9,28 @@ From FunV Require Import Base.Tac Model.BrokerModel Proofs.Broker_base Proofs.Br
 (* live context, subscribers willing to receive: whenever nothing more can happen, the distributor is
    empty, the event loop is back at its select with empty request buffers, every Publish / Subscribe /
    Unsubscribe / Stats call has returned, every worker is waiting in Receive, and every message the
-   distributor accepted has been dispatched completely (or was evicted by a load-shedding back-end).
+   distributor accepted has been dispatched completely (or was evicted by a load-shedding back-end, or rejected by the
+   distributor's output filter).
    Bursts of any size, every back-end; the back-end's no-lost-wake-up property (C07) is the premise. *)
 Theorem C09_progress :
-  forall c wake, wf_cfg c -> sigbuf c = true ->
+  forall c wake, wf_cfg c -> sigbuf c = true -> skipstop c = false ->
     (forall st w, wk st w = WParked -> (dist st <> [] \/ live st = false) -> wake st w = true) ->
     forall st, reach c wake st -> quiescent c wake st -> live st = true ->
       dist st = [] /\ loop st = LIdle /\ subq st = [] /\ unsubq st = [] /\
       (forall k, call st k = CIdle) /\
       (forall w, w < nw c -> wk st w = WIdle \/ wk st w = WParked) /\
-      (forall m, In m (acc st) -> In m (done st) \/ In m (evicted st)).
-Proof. intros c wake WF SB WS st. exact (quiescent_live c wake WS st WF SB). Qed.
+      (forall m, In m (acc st) -> In m (done st) \/ In m (evicted st) \/ In m (skipped st)).
+Proof. intros c wake WF SB SK WS st. exact (quiescent_live c wake SK WS st WF SB). Qed.
 Print Assumptions C09_progress.
 
 (* after Stop / cancellation: whenever nothing more can happen, the event loop and every dispatch
    worker have called wg.Done, i.e. Broker.Wait returns; Stop at any point (idle, mid-dispatch,
    mid-publish, with backlog) is covered because the statement is about every reachable state *)
 Theorem C09_shutdown :
-  forall c wake, sigbuf c = true ->
+  forall c wake, sigbuf c = true -> skipstop c = false ->
     (forall st w, wk st w = WParked -> (dist st <> [] \/ live st = false) -> wake st w = true) ->
     forall st, reach c wake st -> quiescent c wake st -> live st = false -> all_done c st = true.
-Proof. intros c wake SB WS st. exact (quiescent_dead c wake WS st SB). Qed.
+Proof. intros c wake SB SK WS st. exact (quiescent_dead c wake SK WS st SB). Qed.
 Print Assumptions C09_shutdown.
 
 (* every blocking point of Publish / Subscribe / Unsubscribe / Stats is a select with a ctx.Done arm:
@@ -50,3 +51,14 @@ Proof.
   split; [eapply run_reach; [constructor|exact R]|]. auto.
 Qed.
 Print Assumptions C09_stats_unbuffered_refuted.
+
+(* the original worker returned on ErrCurrentOpSkip: over an output-filtered distributor it is gone after
+   the first rejected message and C09_progress fails (accepted message 3 is never dispatched) *)
+Theorem C09_output_filter_skip_refuted :
+  exists st, reach outfilter_orig_cfg wake_exact st /\ quiescent outfilter_orig_cfg wake_exact st /\
+             live st = true /\ dist st <> [].
+Proof.
+  exists outfilter_final. destruct output_filter_original_stalls as (R & Q & L & D & _).
+  split; [eapply run_reach; [constructor|exact R]|]. repeat split; auto. rewrite D; discriminate.
+Qed.
+Print Assumptions C09_output_filter_skip_refuted.
